@@ -759,6 +759,8 @@ def report_violation(ctx, exe, mexe, c, method, k, why, conn=False):
     rep = {"gen": c["gen"], "kind": c["kind"], "N": small["N"], "method": method, "k": k}
     if conn == "wrap":
         rep["wrap"] = True
+        if c.get("raw_metric"):
+            rep["raw_metric"] = True
     elif conn == "deque":
         rep["deque"] = True
     elif conn:
@@ -838,6 +840,11 @@ def evaluate(ctx, exe, mexe, cases, stats, structural=True):
         for (m, k), w in sorted(p["W"].items()):
             stats["wrap_metric_calls"] = stats.get("wrap_metric_calls", 0) + 1
             short = [q for q, r_ in w["raw"] if len(r_) != k]
+            if short:
+                cm_ = dict(c, raw_metric=True)
+                why = fails_wrap(ctx, exe, mexe, cm_, m, k)
+                if why:
+                    report_violation(ctx, exe, mexe, cm_, m, k, why, "wrap")
             if w["logged"] or short or w["rows"] != w["raw"]:
                 ctx.mismatch({"gen": c["gen"], "N": n, "kind": c["kind"], "M": c.get("M"), "X": c.get("X"), "ids": c.get("ids"),
                               "kscale": c.get("kscale"), "method": m, "k": k},
@@ -1290,6 +1297,20 @@ def fails_wrap(ctx, exe, mexe, c, method, k):
     w = p["W"].get((method, k))
     if T is None or w is None:
         return None
+    if c.get("raw_metric") and method != "B":
+        # a METRIC case: the tree search itself (find_neighbors_<tree>_impl, before the dispatcher's fallback can hide it)
+        # must return exactly k nearest others for every sample
+        raw = w["raw"]
+        if [q for q, _ in raw] != list(range(n)) or sane_rows(raw, n) is None:
+            return "the raw %s search (k=%d) on an exact metric returned %d rows for %d samples" % (MNAME[method], k, len(raw), n)
+        for (q, ok, dists), (_, row) in zip(spec_rows(ctx, mexe, T, k, raw), raw):
+            if not ok:
+                want = sorted(T[int(q)][j] for j in range(n) if j != int(q))[:k]
+                return ("%s, k=%d on an exact metric: the tree search itself (find_neighbors_%s_impl) returns for query %s the row "
+                        "%s (distances %s) but the k smallest distances to the other samples are %s; the exhaustive-search "
+                        "fallback of find_neighbors %s" % (MNAME[method], k, "vptree" if method == "V" else "covertree", q, row,
+                                                           [T[int(q)][j] if 0 <= j < n else None for j in row], want,
+                                                           "hides it (fired)" if w["logged"] else "did not fire"))
     viol, _ = judge_wrap(ctx, mexe, c, T, [(method, k, w)])
     return viol[0][2] if viol else None
 
@@ -1713,6 +1734,8 @@ def replay(ctx, case):
             c["Ghex"], c["kscale"] = case["Ghex"], case.get("kscale", 0)
     if case.get("ids"):
         c["ids"] = case["ids"]
+    if case.get("raw_metric"):
+        c["raw_metric"] = True
     ks = [case["k"]] if "k" in case else case.get("ks", [])
     methods = [case["method"]] if "method" in case else METHODS
     rc = 0
